@@ -34,13 +34,13 @@ PLANS = {
  'C03': {
   'level': 'exploration', 'steps': [e3('xts')], 'eval_stats': ['calls_xts'], 'distinct_key': 'shape',
   'rule': "exhaustive grid: len in [0,1100] + 4096+-40 (+65536, 65551 thorough) x {128,256} x {enc,dec} x {sse,avx,vaes} x {raw,expanded key (reference and library schedules)} x tweaks {random, all-ones, top-bit} x offsets of data/keys/tweak x in-place/disjoint; compared with IEEE 1619 reference; len<16 must leave the output untouched",
-  'bound': {'quick': 'len<=1100, 2 offsets', 'thorough': 'len<=1100, 16 offsets, all 3 tweaks everywhere; 2^20+17, 2^24-16, 2^24-1, 2^24 (documented maximum)'},
+  'bound': {'quick': 'len<=1100, 2 offsets', 'thorough': 'len<=4056 (every length), 16 offsets, all 3 tweaks everywhere; 2^20+17, 2^24-16, 2^24-1, 2^24 (documented maximum)'},
   'deadline': {'quick': 240, 'thorough': 2400}, 'assumptions': A_COMMON,
  },
  'C04': {
   'level': 'exploration', 'steps': [e3('cbc', 8, 16), e3('keyexp', 4, 8)], 'eval_stats': ['calls_cbc', 'calls_keyexp'], 'distinct_key': 'shape',
   'rule': "key expansion: {128,192,256} x {sse,avx} (+_enc variant) x keys {zero, ones, counting, seeded random} x key/schedule alignments, both schedules compared word for word with FIPS-197 (+InvMixColumns); CBC: len=16N, N in [1,70] + {255,256,257}(+4096) x {x4,x8} enc x {sse,avx,vaes_avx512} dec x key sizes x offsets x in-place/disjoint against SP 800-38A reference",
-  'bound': {'quick': '120 keys; N<=70; 3 offsets', 'thorough': '600 keys; N<=70 + 4096 + 65536; 16 offsets'},
+  'bound': {'quick': '120 keys; N<=70; 3 offsets', 'thorough': '6000 keys; N<=300 + 4096 + 65536; 16 offsets'},
   'deadline': {'quick': 120, 'thorough': 1200}, 'assumptions': A_COMMON,
  },
  'C05': {
